@@ -136,11 +136,13 @@ def answers(policy, log):
 
 
 def ops_of(obs):
-    """the `ops=` field: numbers of successful store calls (blocks, frames, set_value, create_loop, add_packet, prune) — on the
+    """the `ops=` and `seq=` fields: numbers and ORDER of the successful store calls (blocks, frames, set_value, create_loop, add_packet, prune) — on the
     implementation side counted by x_parse.c around the calls of parser.c, on the model side the trace of Model/ParserTrace.lean"""
     if not obs.startswith("ps rc=") or " ops=" not in obs:
         return None
-    return obs.split(" ops=", 1)[1].split(" ", 1)[0]
+    ops = obs.split(" ops=", 1)[1].split(" ", 1)[0]
+    seq = obs.split(" seq=", 1)[1].split(" ", 1)[0] if " seq=" in obs else None
+    return (ops, seq)
 
 
 def agree(impl, model, req=None):
